@@ -36,6 +36,10 @@ type C03Select struct {
 	Explicit bool   `json:"explicit"`
 	Conflict bool   `json:"conflict"` // coordinator answers "not lockable"
 	Table    int    `json:"table"`
+	// Prepared: the statement is prepared at start-up, outside any global
+	// transaction, and executed inside one (what an application with a
+	// statement cache does)
+	Prepared bool `json:"prepared,omitempty"`
 }
 
 func runC03(t *testing.T, seed uint64, planJSON []byte, tier string) (res *Result) {
@@ -143,7 +147,7 @@ func runC03SFU(t *testing.T, seed uint64, planJSON []byte, tier string) (res *Re
 				oc := t0.Cols[g.Intn(len(t0.Cols))].Name
 				tail = fmt.Sprintf(" ORDER BY %s %s LIMIT %d", oc, simkit.Pick(g, []string{"DESC", "DESC", "ASC"}), g.Range(1, len(t0.Rows)-1))
 			}
-			plan.Selects = append(plan.Selects, C03Select{SQL: fmt.Sprintf("SELECT * FROM %s WHERE %s%s FOR UPDATE", plan.Tables[0].Name, w, tail), Args: args, Explicit: g.Bool(), Conflict: g.Prob(0.35)})
+			plan.Selects = append(plan.Selects, C03Select{SQL: fmt.Sprintf("SELECT * FROM %s WHERE %s%s FOR UPDATE", plan.Tables[0].Name, w, tail), Args: args, Explicit: g.Bool(), Conflict: g.Prob(0.35), Prepared: g.Prob(0.25)})
 		}
 		tape = simkit.NewTape(seed)
 	}
@@ -170,8 +174,16 @@ func runC03SFU(t *testing.T, seed uint64, planJSON []byte, tier string) (res *Re
 			returnSeq := uint64(0)
 			locksAfter := -1
 			done := false
+			var prepared *sql.Stmt
 			sim.Go("sfu", func() {
 				defer func() { done = true }()
+				if sel.Prepared {
+					if st, err := r.db.PrepareContext(context.Background(), sel.SQL); err == nil {
+						prepared = st
+						defer st.Close()
+						sim.Probe("c03-locking-read-prepared-outside-the-global-transaction")
+					}
+				}
 				tm.WithGlobalTx(context.Background(), &tm.GtxConfig{Name: fmt.Sprintf("sfu-%d", i), Timeout: 60 * time.Second}, func(ctx context.Context) error {
 					run := func(q interface {
 						QueryContext(ctx context.Context, query string, args ...any) (*sql.Rows, error)
@@ -182,7 +194,17 @@ func runC03SFU(t *testing.T, seed uint64, planJSON []byte, tier string) (res *Re
 								qerr = fmt.Errorf("panic: %v", p)
 							}
 						}()
-						rows, err := q.QueryContext(ctx, sel.SQL, goArgs(sel.Args)...)
+						var rows *sql.Rows
+						var err error
+						if prepared != nil {
+							st := prepared
+							if tx, ok := q.(*sql.Tx); ok {
+								st = tx.StmtContext(ctx, prepared)
+							}
+							rows, err = st.QueryContext(ctx, goArgs(sel.Args)...)
+						} else {
+							rows, err = q.QueryContext(ctx, sel.SQL, goArgs(sel.Args)...)
+						}
 						if err != nil {
 							qerr = err
 							return
